@@ -1,9 +1,9 @@
 #!/usr/bin/env python3
 """Confirm a sub-agent's mutation in a scratch worktree of /repo (current HEAD) and, if confirmed, keep it under /verif/seeded/<id>/.
-usage: confirm_mutation.py <Cnn> <k> [patch-override]"""
+usage: [MUT_ROOT=/tmp/m2_ MUT_OUT=Cnn-3] confirm_mutation.py <Cnn> <k> [patch-override]"""
 import json, os, shutil, subprocess, sys, glob
 pid, k = sys.argv[1], sys.argv[2]
-src = f"/tmp/mut_{pid}/_mut/{k}"
+src = os.environ.get("MUT_ROOT", "/tmp/mut_") + f"{pid}/_mut/{k}"
 patch = sys.argv[3] if len(sys.argv) > 3 else os.path.join(src, "patch.diff")
 WT = "/tmp/confirm_wt"
 ENV = dict(os.environ, CARGO_NET_OFFLINE="true", CARGO_TARGET_DIR="/tmp/confirm_target")
@@ -62,7 +62,7 @@ else:
 sh("git checkout -- . && git clean -fdq", cwd=WT)
 print(json.dumps({k2: v for k2, v in res.items() if k2 not in ("demo_on_head", "demo_with_change")}), res.get("demo_on_head", {}).get("pass"), res.get("demo_with_change", {}).get("pass"))
 if res["confirmed"]:
-    d = f"/verif/seeded/{pid}-{k}"
+    d = "/verif/seeded/" + os.environ.get("MUT_OUT", f"{pid}-{k}")
     os.makedirs(d, exist_ok=True)
     shutil.copy(patch, os.path.join(d, "patch.diff"))
     for f in glob.glob(os.path.join(src, "demo*")):
